@@ -7,6 +7,35 @@ import Mctp.Spec.Api
 namespace Mctp
 namespace C01
 
+/-! evaluation of `Spec.rtPayload` (its equation lemmas are expensive to generate: use these) -/
+theorem rtp_genPci (r : B) (h : Option Bytes) (d : Bytes) :
+    Spec.rtPayload r (.genPci h d) = some (.pci, optBytes h ++ d) := rfl
+theorem rtp_genIana (r : B) (h : Option Bytes) (d : Bytes) :
+    Spec.rtPayload r (.genIana h d) = some (.iana, optBytes h ++ d) := rfl
+theorem rtp_genSpdm1 (r : B) (h : Option Bytes) (d : Bytes) :
+    Spec.rtPayload r (.genSpdm .spdm h d) = some (.spdm, optBytes h ++ d) := rfl
+theorem rtp_genSpdm2 (r : B) (h : Option Bytes) (d : Bytes) :
+    Spec.rtPayload r (.genSpdm .secured h d) = some (.secured, optBytes h ++ d) := rfl
+theorem rtp_vendor (r : B) (v : VendorId) (msg : Bytes) :
+    Spec.rtPayload r (.vendorDefined v msg) =
+      match Spec.vendorFrame (.vendorDefined v msg) with
+      | some fr => some (if v.format = 0#8 then .pci else .iana, fr.drop 1)
+      | none => none := by
+  show (match Enc.vendorDefined v msg, Spec.vendorFrame (.vendorDefined v msg) with
+      | .vendorDefined v _, some fr => some (if v.format = 0#8 then MsgType.pci else .iana, fr.drop 1)
+      | .genPci _ _, some fr => some (MsgType.pci, fr.drop 1)
+      | .genIana _ _, some fr => some (.iana, fr.drop 1)
+      | .genSpdm t _ _, some fr => some (t, fr.drop 1)
+      | _, _ => none) = _
+  cases Spec.vendorFrame (.vendorDefined v msg) <;> rfl
+theorem rtp_req (r : B) (e : Enc) (b : Bytes) (h : Spec.reqBody e = some b) :
+    Spec.rtPayload r e = some (.control, b.drop 2) := by
+  unfold Spec.rtPayload; rw [h]
+theorem rtp_resp (r : B) (e : Enc) (cmd cc : B) (f : Bytes) (h1 : Spec.reqBody e = none)
+    (h : Spec.respFields r e = some (cmd, cc, f)) :
+    Spec.rtPayload r e = if cc = 0x00#8 then some (.control, f) else none := by
+  unfold Spec.rtPayload; rw [h1]; simp only []; rw [h]
+
 /-- for every encoder call outside the D2/D3 classes: the encoded bytes decode to the message
 type they were encoded with and to a payload that is byte for byte what was encoded, a
 sub-slice of the input ending immediately before the PEC -/
@@ -16,7 +45,218 @@ theorem roundtrip_partial (c : Ctx) (dst : B) (e : Enc) (buf buf' pl : Bytes) (n
     (h : encode c dst e buf = .ok (buf', n)) :
     decode (buf'.take n) = .ok (t, n - 1 - pl.length, pl.length) ∧
     Spec.sub (buf'.take n) (n - 1 - pl.length) (n - 1) = pl ∧ pl.length + 1 ≤ n := by
-  sorry
+  obtain ⟨t', hd, d, hb, hs, hn, htake⟩ := Proc.encode_ok_take c dst e buf buf' n h
+  rw [htake]
+  clear h htake
+  cases e with
+  | reqSetEid op eid =>
+    simp only [Enc.body] at hb
+    split at hb
+    · simp at hb
+    · simp only [Out.ok.injEq, Prod.mk.injEq] at hb
+      obtain ⟨rfl, rfl, rfl⟩ := hb
+      rw [rtp_req _ _ _ rfl] at hx
+      simp at hx
+      obtain ⟨rfl, rfl⟩ := hx
+      exact Proc.rt_request_pkt _ _ _ _ n hn (by decide) (by rfl)
+  | reqGetEid =>
+    simp only [Enc.body, Out.ok.injEq, Prod.mk.injEq] at hb
+    obtain ⟨rfl, rfl, rfl⟩ := hb
+    rw [rtp_req _ _ _ rfl] at hx
+    simp at hx
+    obtain ⟨rfl, rfl⟩ := hx
+    exact Proc.rt_request_pkt _ _ _ _ n hn (by decide) (by rfl)
+  | reqGetUuid =>
+    simp only [Enc.body, Out.ok.injEq, Prod.mk.injEq] at hb
+    obtain ⟨rfl, rfl, rfl⟩ := hb
+    rw [rtp_req _ _ _ rfl] at hx
+    simp at hx
+    obtain ⟨rfl, rfl⟩ := hx
+    exact Proc.rt_request_pkt _ _ _ _ n hn (by decide) (by rfl)
+  | reqVersion q =>
+    simp only [Enc.body, Out.ok.injEq, Prod.mk.injEq] at hb
+    obtain ⟨rfl, rfl, rfl⟩ := hb
+    rw [rtp_req _ _ _ rfl] at hx
+    simp at hx
+    obtain ⟨rfl, rfl⟩ := hx
+    exact Proc.rt_request_pkt _ _ _ _ n hn (by decide) (by rfl)
+  | reqMsgTypes =>
+    simp only [Enc.body, Out.ok.injEq, Prod.mk.injEq] at hb
+    obtain ⟨rfl, rfl, rfl⟩ := hb
+    rw [rtp_req _ _ _ rfl] at hx
+    simp at hx
+    obtain ⟨rfl, rfl⟩ := hx
+    exact Proc.rt_request_pkt _ _ _ _ n hn (by decide) (by rfl)
+  | reqVendor sel =>
+    simp only [Enc.body, Out.ok.injEq, Prod.mk.injEq] at hb
+    obtain ⟨rfl, rfl, rfl⟩ := hb
+    rw [rtp_req _ _ _ rfl] at hx
+    simp at hx
+    obtain ⟨rfl, rfl⟩ := hx
+    exact Proc.rt_request_pkt _ _ _ _ n hn (by decide) (by rfl)
+  | reqResolveEid x =>
+    simp only [Enc.body, Out.ok.injEq, Prod.mk.injEq] at hb
+    obtain ⟨rfl, rfl, rfl⟩ := hb
+    rw [rtp_req _ _ _ rfl] at hx
+    simp at hx
+    obtain ⟨rfl, rfl⟩ := hx
+    exact Proc.rt_request_pkt _ _ _ _ n hn (by decide) (by rfl)
+  | reqAllocate op pool first =>
+    simp only [Enc.body, Out.ok.injEq, Prod.mk.injEq] at hb
+    obtain ⟨rfl, rfl, rfl⟩ := hb
+    rw [rtp_req _ _ _ rfl] at hx
+    simp at hx
+    obtain ⟨rfl, rfl⟩ := hx
+    exact Proc.rt_request_pkt _ _ _ _ n hn (by decide) (by rfl)
+  | reqRouting es => cases hcls
+  | reqGetRouting hh => cases hcls
+  | reqPrepare => cases hcls
+  | reqDiscovery => cases hcls
+  | reqNotify => cases hcls
+  | reqNetworkId => cases hcls
+  | reqQueryHop x y => cases hcls
+  | reqResolveUuid u hh => cases hcls
+  | reqQueryRate => cases hcls
+  | reqTxRate => exact absurd hs (by decide)
+  | reqUpdateRate => exact absurd hs (by decide)
+  | reqQueryIfaces => exact absurd hs (by decide)
+  | respGetEid cc et it fair => cases hcls
+  | respSetEid cc rej alloc =>
+    simp only [Enc.body, Out.ok.injEq, Prod.mk.injEq] at hb
+    obtain ⟨rfl, rfl, rfl⟩ := hb
+    rw [rtp_resp _ _ _ _ _ rfl rfl] at hx
+    split at hx
+    · rename_i hcc
+      subst hcc
+      simp only [Option.some.injEq, Prod.mk.injEq] at hx
+      obtain ⟨rfl, rfl⟩ := hx
+      have hxy : (if rej = true then alloc ||| (1#8 <<< 4) else alloc) =
+          ((if rej = true then 1#8 else 0#8) <<< 4) ||| alloc := by
+        cases rej <;> simp [BitVec.or_comm]
+      rw [hxy] at hn ⊢
+      exact Proc.rt_response_pkt _ _ _ _ n 3 hn rfl (.inr rfl)
+    · simp at hx
+  | respUuid cc u =>
+    simp only [Enc.body, Out.ok.injEq, Prod.mk.injEq] at hb
+    obtain ⟨rfl, rfl, rfl⟩ := hb
+    rw [rtp_resp _ _ _ _ _ rfl rfl] at hx
+    split at hx
+    · rename_i hcc
+      subst hcc
+      simp only [Option.some.injEq, Prod.mk.injEq] at hx
+      obtain ⟨rfl, rfl⟩ := hx
+      have hu : u.length = 16 := by simpa [Spec.argsOk] using ha
+      exact Proc.rt_response_pkt _ _ _ _ n 16 hn rfl (.inr hu)
+    · simp at hx
+  | respVersion cc =>
+    simp only [Enc.body, Out.ok.injEq, Prod.mk.injEq] at hb
+    obtain ⟨rfl, rfl, rfl⟩ := hb
+    rw [rtp_resp _ _ _ _ _ rfl rfl] at hx
+    split at hx
+    · rename_i hcc
+      subst hcc
+      simp only [Option.some.injEq, Prod.mk.injEq] at hx
+      obtain ⟨rfl, rfl⟩ := hx
+      exact Proc.rt_response_pkt _ _ _ _ n 5 hn rfl (.inr rfl)
+    · simp at hx
+  | respMsgTypes cc ts =>
+    simp only [Enc.body] at hb
+    split at hb
+    · simp at hb
+    · simp only [Out.ok.injEq, Prod.mk.injEq] at hb
+      obtain ⟨rfl, rfl, rfl⟩ := hb
+      rw [rtp_resp _ _ _ _ _ rfl rfl] at hx
+      split at hx
+      · rename_i hcc
+        subst hcc
+        simp only [Option.some.injEq, Prod.mk.injEq] at hx
+        obtain ⟨rfl, rfl⟩ := hx
+        exact Proc.rt_response_pkt _ _ _ _ n 0 hn rfl (.inl rfl)
+      · simp at hx
+  | respVendor cc sel vid =>
+    simp only [Enc.body] at hb
+    split at hb
+    · simp at hb
+    · simp only [Out.ok.injEq, Prod.mk.injEq] at hb
+      obtain ⟨rfl, rfl, rfl⟩ := hb
+      rw [rtp_resp _ _ _ _ _ rfl rfl] at hx
+      split at hx
+      · rename_i hcc
+        subst hcc
+        simp only [Option.some.injEq, Prod.mk.injEq] at hx
+        obtain ⟨rfl, rfl⟩ := hx
+        exact Proc.rt_response_pkt _ _ _ _ n 0 hn rfl (.inl rfl)
+      · simp at hx
+  | vendorDefined v msg =>
+    simp only [Enc.body] at hb
+    rw [rtp_vendor] at hx
+    split at hb
+    · rename_i h0
+      simp only [Out.ok.injEq, Prod.mk.injEq] at hb
+      obtain ⟨rfl, rfl, rfl⟩ := hb
+      have hvf : Spec.vendorFrame (.vendorDefined v msg) =
+          some (0x7E#8 :: (v.data >>> 8).setWidth 8 :: v.data.setWidth 8 :: msg) := by
+        show (if v.format = 0#8 then _ else _) = _
+        rw [if_pos h0]
+      rw [hvf] at hx
+      simp only [h0, if_true, List.drop_succ_cons, List.drop_zero, Option.some.injEq, Prod.mk.injEq] at hx
+      obtain ⟨rfl, rfl⟩ := hx
+      have key := Proc.rt_vendor_pkt c.address dst .pci (some (pciHeader v.data)) msg n hn (.inl rfl)
+      have e : optBytes (some (pciHeader v.data)) ++ msg = (v.data >>> 8).setWidth 8 :: v.data.setWidth 8 :: msg := by
+        simp [optBytes, pciHeader_eq]
+      rw [e] at key
+      exact key
+    · rename_i h0
+      split at hb
+      · rename_i h1
+        simp only [Out.ok.injEq, Prod.mk.injEq] at hb
+        obtain ⟨rfl, rfl, rfl⟩ := hb
+        have hvf : Spec.vendorFrame (.vendorDefined v msg) =
+            some (0x7F#8 :: (v.data >>> 24).setWidth 8 :: (v.data >>> 16).setWidth 8 ::
+              (v.data >>> 8).setWidth 8 :: v.data.setWidth 8 :: msg) := by
+          show (if v.format = 0#8 then _ else if v.format = 1#8 then _ else _) = _
+          rw [if_neg h0, if_pos h1]
+        rw [hvf] at hx
+        simp only [h0, if_false, List.drop_succ_cons, List.drop_zero, Option.some.injEq, Prod.mk.injEq] at hx
+        obtain ⟨rfl, rfl⟩ := hx
+        have key := Proc.rt_vendor_pkt c.address dst .iana (some (ianaHeader v.data)) msg n hn (.inr (.inl rfl))
+        have e : optBytes (some (ianaHeader v.data)) ++ msg =
+            (v.data >>> 24).setWidth 8 :: (v.data >>> 16).setWidth 8 :: (v.data >>> 8).setWidth 8 ::
+              v.data.setWidth 8 :: msg := by
+          simp [optBytes, ianaHeader_eq]
+        rw [e] at key
+        exact key
+      · simp at hb
+  | genControl hh dd => cases hx
+  | genPci hh dd =>
+    simp only [Enc.body, Out.ok.injEq, Prod.mk.injEq] at hb
+    obtain ⟨rfl, rfl, rfl⟩ := hb
+    rw [rtp_genPci] at hx
+    simp only [Option.some.injEq, Prod.mk.injEq] at hx
+    obtain ⟨rfl, rfl⟩ := hx
+    exact Proc.rt_vendor_pkt _ _ _ _ _ n hn (.inl rfl)
+  | genIana hh dd =>
+    simp only [Enc.body, Out.ok.injEq, Prod.mk.injEq] at hb
+    obtain ⟨rfl, rfl, rfl⟩ := hb
+    rw [rtp_genIana] at hx
+    simp only [Option.some.injEq, Prod.mk.injEq] at hx
+    obtain ⟨rfl, rfl⟩ := hx
+    exact Proc.rt_vendor_pkt _ _ _ _ _ n hn (.inr (.inl rfl))
+  | genSpdm tt hh dd =>
+    simp only [Enc.body, Out.ok.injEq, Prod.mk.injEq] at hb
+    obtain ⟨rfl, rfl, rfl⟩ := hb
+    cases tt with
+    | spdm =>
+      rw [rtp_genSpdm1] at hx
+      simp only [Option.some.injEq, Prod.mk.injEq] at hx
+      obtain ⟨rfl, rfl⟩ := hx
+      exact Proc.rt_vendor_pkt _ _ _ _ _ n hn (.inr (.inr (.inl rfl)))
+    | secured =>
+      rw [rtp_genSpdm2] at hx
+      simp only [Option.some.injEq, Prod.mk.injEq] at hx
+      obtain ⟨rfl, rfl⟩ := hx
+      exact Proc.rt_vendor_pkt _ _ _ _ _ n hn (.inr (.inr (.inr rfl)))
+    | _ => cases hx
 
 /-- a response encoded with a non-Success completion code decodes to the
 unsuccessful-completion error carrying exactly that code -/
@@ -24,7 +264,53 @@ theorem response_error (c : Ctx) (dst : B) (e : Enc) (buf buf' : Bytes) (n : Nat
     (hcc : Spec.respCc e = some cc.toByte) (hne : cc ≠ .success)
     (h : encode c dst e buf = .ok (buf', n)) :
     decode (buf'.take n) = .err (.control, .ctl (.cc cc)) := by
-  sorry
+  obtain ⟨t', hd, d, hb, hs, hn, htake⟩ := Proc.encode_ok_take c dst e buf buf' n h
+  rw [htake]
+  clear h htake
+  cases e with
+  | respSetEid cc0 rej alloc =>
+    have : cc0 = cc.toByte := by injection hcc
+    subst this
+    simp only [Enc.body, Out.ok.injEq, Prod.mk.injEq] at hb
+    obtain ⟨rfl, rfl, rfl⟩ := hb
+    exact Proc.rt_response_cc _ _ _ cc _ hne
+  | respGetEid cc0 et it fair =>
+    have : cc0 = cc.toByte := by injection hcc
+    subst this
+    simp only [Enc.body, Out.ok.injEq, Prod.mk.injEq] at hb
+    obtain ⟨rfl, rfl, rfl⟩ := hb
+    exact Proc.rt_response_cc _ _ _ cc _ hne
+  | respUuid cc0 u =>
+    have : cc0 = cc.toByte := by injection hcc
+    subst this
+    simp only [Enc.body, Out.ok.injEq, Prod.mk.injEq] at hb
+    obtain ⟨rfl, rfl, rfl⟩ := hb
+    exact Proc.rt_response_cc _ _ _ cc _ hne
+  | respVersion cc0 =>
+    have : cc0 = cc.toByte := by injection hcc
+    subst this
+    simp only [Enc.body, Out.ok.injEq, Prod.mk.injEq] at hb
+    obtain ⟨rfl, rfl, rfl⟩ := hb
+    exact Proc.rt_response_cc _ _ _ cc _ hne
+  | respMsgTypes cc0 ts =>
+    have : cc0 = cc.toByte := by injection hcc
+    subst this
+    simp only [Enc.body] at hb
+    split at hb
+    · simp at hb
+    · simp only [Out.ok.injEq, Prod.mk.injEq] at hb
+      obtain ⟨rfl, rfl, rfl⟩ := hb
+      exact Proc.rt_response_cc _ _ _ cc _ hne
+  | respVendor cc0 sel vid =>
+    have : cc0 = cc.toByte := by injection hcc
+    subst this
+    simp only [Enc.body] at hb
+    split at hb
+    · simp at hb
+    · simp only [Out.ok.injEq, Prod.mk.injEq] at hb
+      obtain ⟨rfl, rfl, rfl⟩ := hb
+      exact Proc.rt_response_cc _ _ _ cc _ hne
+  | _ => cases hcc
 
 /-- finding D3: the nine request kinds whose command has no length-table entry make the
 decoder panic on the library's own output -/
@@ -32,13 +318,60 @@ theorem request_unimpl (c : Ctx) (dst : B) (e : Enc) (buf buf' : Bytes) (n : Nat
     (hcls : Spec.rtClass e = .d3) (ha : Spec.argsOk e = true)
     (h : encode c dst e buf = .ok (buf', n)) :
     decode (buf'.take n) = .panic ⟨.unimplemented, .traits⟩ := by
-  sorry
+  obtain ⟨t', hd, d, hb, hs, hn, htake⟩ := Proc.encode_ok_take c dst e buf buf' n h
+  rw [htake]
+  clear h htake
+  cases e with
+  | reqRouting es =>
+    simp only [Enc.body] at hb
+    split at hb
+    · simp at hb
+    · simp only [Out.ok.injEq, Prod.mk.injEq] at hb
+      obtain ⟨rfl, rfl, rfl⟩ := hb
+      exact Proc.rt_request_unimpl _ _ _ _ (by decide)
+  | reqGetRouting hh =>
+    simp only [Enc.body, Out.ok.injEq, Prod.mk.injEq] at hb
+    obtain ⟨rfl, rfl, rfl⟩ := hb
+    exact Proc.rt_request_unimpl _ _ _ _ (by decide)
+  | reqPrepare =>
+    simp only [Enc.body, Out.ok.injEq, Prod.mk.injEq] at hb
+    obtain ⟨rfl, rfl, rfl⟩ := hb
+    exact Proc.rt_request_unimpl _ _ _ _ (by decide)
+  | reqDiscovery =>
+    simp only [Enc.body, Out.ok.injEq, Prod.mk.injEq] at hb
+    obtain ⟨rfl, rfl, rfl⟩ := hb
+    exact Proc.rt_request_unimpl _ _ _ _ (by decide)
+  | reqNotify =>
+    simp only [Enc.body, Out.ok.injEq, Prod.mk.injEq] at hb
+    obtain ⟨rfl, rfl, rfl⟩ := hb
+    exact Proc.rt_request_unimpl _ _ _ _ (by decide)
+  | reqNetworkId =>
+    simp only [Enc.body, Out.ok.injEq, Prod.mk.injEq] at hb
+    obtain ⟨rfl, rfl, rfl⟩ := hb
+    exact Proc.rt_request_unimpl _ _ _ _ (by decide)
+  | reqQueryHop x y =>
+    simp only [Enc.body, Out.ok.injEq, Prod.mk.injEq] at hb
+    obtain ⟨rfl, rfl, rfl⟩ := hb
+    exact Proc.rt_request_unimpl _ _ _ _ (by decide)
+  | reqResolveUuid u hh =>
+    simp only [Enc.body, Out.ok.injEq, Prod.mk.injEq] at hb
+    obtain ⟨rfl, rfl, rfl⟩ := hb
+    exact Proc.rt_request_unimpl _ _ _ _ (by decide)
+  | reqQueryRate =>
+    simp only [Enc.body, Out.ok.injEq, Prod.mk.injEq] at hb
+    obtain ⟨rfl, rfl, rfl⟩ := hb
+    exact Proc.rt_request_unimpl _ _ _ _ (by decide)
+  | _ => cases hcls
 
 /-- finding D2: the library's own Success Get Endpoint ID response is rejected -/
 theorem geteid_response_rejected (c : Ctx) (dst et it : B) (fair : Bool) (buf buf' : Bytes) (n : Nat)
     (h : encode c dst (.respGetEid 0x00#8 et it fair) buf = .ok (buf', n)) :
     decode (buf'.take n) = .err (.control, .ctl .len) := by
-  sorry
+  obtain ⟨t', hd, d, hb, hs, hn, htake⟩ := Proc.encode_ok_take c dst _ buf buf' n h
+  rw [htake]
+  simp only [Enc.body, Out.ok.injEq, Prod.mk.injEq] at hb
+  obtain ⟨rfl, rfl, rfl⟩ := hb
+  exact Proc.rt_response_len _ _ _ _ 4 rfl ⟨by decide, by simp⟩
 
 end C01
 end Mctp
